@@ -17,7 +17,7 @@ pub fn dependent_chain(coin: &'static Coin, first_height: u64, n_blocks: usize) 
         let cbtx = coinbase(h, 7, vec![pay((h % 200) as u8 + 3, 50 * COIN_VALUE), TxOut { value: 0, script: script::op_return(format!("h{}", h).as_bytes()) }]);
         let mut txs = vec![cbtx.clone()];
         if let Some(p) = prev_cb {
-            txs.push(Tx { version: 2, segwit: false, inputs: vec![TxIn::spend(p, 0)], outputs: vec![pay(200, 20 * COIN_VALUE), pay((h % 50) as u8 + 100, 29 * COIN_VALUE)], locktime: h as u32 });
+            txs.push(Tx { version: 2, segwit: false, inputs: vec![TxIn::spend(p, 0)], outputs: vec![pay(200, 20 * COIN_VALUE), pay((h % 50) as u8 + 100, 29 * COIN_VALUE)], locktime: h as u32, wide: 0 });
         }
         prev_cb = Some(cbtx.txid());
         cb.push_raw(txs);
